@@ -178,6 +178,8 @@ struct RemovalEv
 {
     ent: u8,
     live_at_removal: HashSet<usize>,
+    /// the op (sender, trace position) that caused the removal, if it was a generated op
+    cause: Option<(Sender, usize)>,
 }
 
 #[derive(Debug, Clone)]
@@ -257,6 +259,10 @@ pub struct Checker
     last_begun: Option<SysUid>,
     /// delivery of an exclusive run whose parked cleanup will run at the next world flush (the next poll)
     pending_mid_cleanup: Option<u64>,
+    /// the generated op whose effects are being applied to the model right now
+    cur_cause: Option<(Sender, usize)>,
+    /// dead, not yet polled entity -> the op that despawned it
+    despawn_cause: HashMap<u8, (Sender, usize)>,
     /// parent of each pool entity (fixed hierarchy)
     parent: Vec<Option<u8>>,
     /// pool entities whose auto-despawn signal has been dropped: the next garbage collection despawns them
@@ -324,6 +330,8 @@ impl Checker
             strict: true,
             last_begun: None,
             pending_mid_cleanup: None,
+            cur_cause: None,
+            despawn_cause: HashMap::new(),
             parent: Vec::new(),
             ent_doomed: HashSet::new(),
             ent_grace: HashSet::new(),
@@ -421,7 +429,11 @@ impl Checker
                 _ => {}
             }
         }
-        if self.has_tracker.contains(&e) { self.dead_unpolled.push(e); }
+        if self.has_tracker.contains(&e)
+        {
+            self.dead_unpolled.push(e);
+            if let Some(c) = self.cur_cause { self.despawn_cause.insert(e, c); }
+        }
     }
 
     /// `despawn_recursive`: every live descendant, then the entity itself (bevy_hierarchy despawns the children first,
@@ -448,7 +460,8 @@ impl Checker
             Key::EntityRemoval(ee, cc) => ee == e && cc == c,
             _ => false,
         }).into_iter().collect();
-        self.pending_removals[c as usize].push(RemovalEv{ ent: e, live_at_removal: live });
+        let cause = self.cur_cause;
+        self.pending_removals[c as usize].push(RemovalEv{ ent: e, live_at_removal: live, cause });
         let n = self.removal_history.entry((e, c)).or_default();
         *n += 1;
         if *n >= 2 { self.rep.classes.hit("C08:remove_reinsert_remove"); }
@@ -760,6 +773,13 @@ impl Checker
                 expected = Some(vec![*s]);
                 kind = Some(HookKind::Manual);
                 if !self.alive(*s) { self.stale("C18:run_dead_system"); }
+            }
+            (Op::RunMany(_, k), Resolved::Sys(s)) =>
+            {
+                expected = Some(vec![*s; 140 + 60 * (*k as usize % 3)]);
+                kind = Some(HookKind::Manual);
+                if !self.alive(*s) { self.stale("C18:run_dead_system"); }
+                self.rep.classes.hit("C02:tree_of_more_than_100_commands");
             }
             (Op::SysEvent(_, ty), Resolved::Payload{ id, sys: Some(s), .. }) =>
             {
@@ -1083,6 +1103,7 @@ impl Checker
             }
         }
         // plain effects: component removal / despawn are read from the facts
+        self.cur_cause = Some((sender, self.pos));
         match (&op, &resolved)
         {
             (Op::Despawn(Target::Sys(_), _), Resolved::Sys(s)) =>
@@ -1107,6 +1128,7 @@ impl Checker
             }
             _ => self.sync_facts(facts, false),
         }
+        self.cur_cause = None;
     }
 
     fn involves_revoked(&self, obs: &[i64], exp: &[i64]) -> bool
@@ -1230,6 +1252,35 @@ impl Checker
                         self.rep.classes.hit("C03:started_with_other_deliveries_pending");
                         if out.len() >= 2 { self.rep.classes.hit("C03:started_with_2plus_pending"); }
                         if out.iter().any(|x| x.kind != d.kind) { self.rep.classes.hit("C03:pending_mixed_kinds"); }
+                    }
+                    // C12: a removal / despawn caused earlier by the same run is a reaction-triggering event sent before
+                    // this delivery: the target reacts to it first (every runner call polls before it starts its system)
+                    if let Some(sender) = d.sender
+                    {
+                        let mut earlier: Vec<String> = Vec::new();
+                        for c in 0..2u8
+                        {
+                            if !self.tracked[c as usize] { continue; }
+                            for ev in self.pending_removals[c as usize].iter()
+                            {
+                                let Some((es, epos)) = ev.cause else { continue };
+                                if es != sender || epos >= d.apply_pos { continue; }
+                                let e = ev.ent;
+                                let listens = self.regs.iter().any(|r| r.in_table && !r.in_flight && r.sys == s
+                                    && (r.key == Key::Removal(c) || r.key == Key::EntityRemoval(e, c)));
+                                if listens { earlier.push(format!("removal of component {c} from entity {e}")); }
+                            }
+                        }
+                        for e in self.dead_unpolled.iter()
+                        {
+                            let Some((es, epos)) = self.despawn_cause.get(e).copied() else { continue };
+                            if es != sender || epos >= d.apply_pos { continue; }
+                            if self.regs.iter().any(|r| r.in_table && r.in_flight && r.sys == s && r.key == Key::Despawn(*e)) { earlier.push(format!("despawn of entity {e}")); }
+                        }
+                        if !earlier.is_empty()
+                        {
+                            self.viol("C12", format!("delivery {id} to system {s} started before the system reacted to earlier events of the same sender {:?}: {}", sender, earlier.join(", ")));
+                        }
                     }
                     // C12: deliveries of one sender to one target start in the order sent
                     if let Some(sender) = d.sender
@@ -1581,6 +1632,7 @@ impl Checker
             }
         }
         let dead = std::mem::take(&mut self.dead_unpolled);
+        self.despawn_cause.clear();
         for e in dead
         {
             n_events += 1;
